@@ -313,6 +313,9 @@ def rule_pay_cas(fx, col):
             if new == cx.NONE:
                 n_pay += 1
                 good = exp_orig and all(o[0] == 'arg' for o in exp_orig)
+                if s.op == 'compare_exchange_weak' and not any(s.bb in bl for h, bl, tl in b.loops()):
+                    col.fail('PAY-CAS', s.key() + '|strong', 'the pay-back uses compare_exchange_weak outside a retry loop: a spurious failure '
+                             'is indistinguishable from "a writer already paid", the reader would then release a count nobody added', s.loc)
                 col.add('PAY-CAS', s.key(), good,
                         'debt cleared by compare_exchange(expected = caller\'s pointer, NONE); expected derives from %s' % sorted(exp_orig), s.loc)
             else:
